@@ -387,7 +387,10 @@ class Program:
                     continue
                 if nparams is not None and sum(1 for c in n.get('inner', []) if isinstance(c, dict) and c.get('kind') == 'ParmVarDecl') != nparams:
                     continue
-                cands[n['id']] = (u, p, n)
+                rb = n.get('range', {}).get('begin', {})
+                rb = rb.get('expansionLoc', rb)
+                key = (n.get('_file'), rb.get('offset'), q)
+                cands.setdefault(key, (u, p, n))    # the same definition seen from several translation units
         if len(cands) != 1:
             raise ExtractError('function %s::%s sig=%r const=%r: %d candidates %s' % (
                 parent, name, sig, const, len(cands), [c[2].get('type', {}).get('qualType') for c in cands.values()]))
@@ -609,6 +612,11 @@ def collect_decls(objs):
         k = n.get('kind')
         if k in ('CXXRecordDecl', 'ClassTemplateSpecializationDecl', 'EnumDecl'):
             found.append((ctx, n))
+        if k in ('TypeAliasDecl', 'TypedefDecl') and ctx and all(kk == 'NamespaceDecl' for kk, _ in ctx):
+            q = '::'.join(c.get('name', '') for _, c in ctx) + '::' + n.get('name', '')
+            tt = n.get('type', {})
+            TYPEDEFS[q] = tt.get('desugaredQualType') or tt.get('qualType')
+            TYPEDEFS[n.get('name', '')] = TYPEDEFS[q]
         if k in ('CXXMethodDecl', 'FunctionDecl', 'CXXConstructorDecl', 'CXXDestructorDecl'):
             found.append((ctx, n))
             return
@@ -671,6 +679,7 @@ class AstUnit:
 
     def __init__(self, prog, tu, flt, workdir):
         self.prog = prog
+        self.tu, self.workdir = tu, workdir
         path, cmd = run_clang(tu, flt, workdir)
         prog.clang_cmds.append(cmd)
         self.objs = load_json_stream(path)
@@ -727,6 +736,37 @@ class AstUnit:
                             parent = self.rec_of_id.get(c['id'], '')
                             break
                 self.funcs.append((parent, n))
+
+    def global_const(self, name, tr):
+        """literal initialiser of a const namespace-scope variable (looked up with a dedicated clang run, cached)"""
+        if not hasattr(self, '_gc'):
+            self._gc = {}
+        if name not in self._gc:
+            self._gc[name] = None
+            try:
+                path, cmd = run_clang(self.tu, name, self.workdir)
+                for o in load_json_stream(path):
+                    stack = [o]
+                    while stack:
+                        x = stack.pop()
+                        if isinstance(x, dict):
+                            if x.get('kind') == 'VarDecl' and x.get('name') == name and 'const' in x.get('type', {}).get('qualType', ''):
+                                t, _, _ = parse_type(node_type(x))
+                                inn = [c for c in x.get('inner', []) if isinstance(c, dict)]
+                                if inn:
+                                    lit = inn[0]
+                                    while lit.get('kind') in ('ImplicitCastExpr', 'ConstantExpr', 'ParenExpr') and lit.get('inner'):
+                                        lit = lit['inner'][0]
+                                    if lit.get('kind') == 'IntegerLiteral' and t[0] == 'int':
+                                        self._gc[name] = ('const', t, int(lit['value']))
+                                    elif lit.get('kind') == 'FloatingLiteral' and t[0] == 'float':
+                                        self._gc[name] = ('const', t, lit['value'])
+                            stack.extend(v for v in x.values() if isinstance(v, (dict, list)))
+                        elif isinstance(x, list):
+                            stack.extend(x)
+            except ExtractError:
+                pass
+        return self._gc[name]
 
     def find_function(self, parent, name, sig=None, nth=None):
         """definition (with body) of parent::name ; sig = substring the type string must contain"""
@@ -914,6 +954,12 @@ class FnTranslator:
             out = self.flush() + out
             self.rule('ctor: base initialiser emitted as call')
             return out
+        if 'delegatingInit' in ini or (inner and inner[0].get('kind') == 'CXXConstructExpr' and self.T(inner[0]) == self.self_type):
+            lv = ('deref', ('var', 'self', ('ptr', self.self_type)), self.self_type)
+            out += self.construct_into(lv, self.self_type, inner[0])
+            out = self.flush() + out
+            self.rule('ctor: delegating constructor emitted as call')
+            return out
         self.err(ini, 'unknown ctor initialiser')
 
     def assign_init(self, lv, t, e):
@@ -945,7 +991,7 @@ class FnTranslator:
                             qual = rq
                 if qual is None:
                     self.err(e, 'constructor of unknown record %s' % t[1])
-                cls = template_parts(qual.split('::')[-1])[0]
+                cls = template_parts(qual)[0].split('::')[-1]
                 u2, p2, n2 = self.prog.find(qual, cls, nparams=len(args))
                 target = self.prog.resolve_call(self, n2['id'], cls, None, e)
                 ctor, _ret, pkinds, _rr = target
@@ -955,6 +1001,12 @@ class FnTranslator:
                     cargs.append(self.expr(a) if pk == 'value' and (is_scalar(self.T(a)) or self.T(a)[0] == 'string') else self.arg(a))
                 self.rule('constructor call resolved by class and arity')
                 return [('expr', ('call', ctor, cargs, ('void',)))]
+            if t[0] == 'queue' and not args:
+                self.rule('std::queue: default construction = empty')
+                return [('assign', ('field', lv, 'size', ('int', 64, False)), ('const', ('int', 64, False), 0)),
+                        ('assign', ('field', lv, 'head', ('int', 64, False)), ('const', ('int', 64, False), 0))]
+            if t[0] == 'atomic' and len(args) == 1:
+                return [('assign', lv, self.expr(args[0]))]
             if t[0] in ('vector', 'list', 'map'):
                 if not args:
                     self.rule('std::vector/list/map: default construction = empty')
@@ -1056,6 +1108,10 @@ class FnTranslator:
                 nm = self.tmp(t)
                 st = [('decl', nm, t, None)] + self.eig_store(('var', nm, t), t, ev)
                 return self.flush() + st + [('return', ('var', nm, t))]
+            if t[0] == 'struct':
+                self.rule('struct returned by value: copy of the C model (container models are copied shallowly)')
+                v = self.aggregate_value(e, t)
+                return self.flush() + [('return', v)]
             v = self.expr(e)
             return self.flush() + [('return', v)]
         if k == 'BreakStmt':
@@ -1393,6 +1449,10 @@ class FnTranslator:
                 if isptr:
                     return ('deref', ('var', nm, ('ptr', t)), t)
                 return ('var', nm, t)
+            gv = self.unit.global_const(n['referencedDecl'].get('name'), self)
+            if gv is not None:
+                self.rule('namespace-scope constant replaced by its initialiser value')
+                return gv
             self.err(n, 'reference to unknown declaration %s' % n['referencedDecl'].get('name'))
         if k == 'MemberExpr':
             base = self.inner(n)[0]
@@ -1813,6 +1873,26 @@ class FnTranslator:
             if name in ('front', 'back'):
                 return self.lvalue(n)
             self.err(n, 'std::vector::%s' % name)
+        if ot[0] == 'queue':
+            q = self.lvalue(obj)
+            u64 = ('int', 64, False)
+            if name == 'size':
+                self.rule('std::queue size() -> size field')
+                return ('field', q, 'size', u64)
+            if name == 'empty':
+                return ('bin', '==', ('field', q, 'size', u64), ('const', u64, 0), ('bool',))
+            if name == 'push':
+                self.rule('std::queue push -> ring model store at (head+size) mod CAP')
+                self.pre.append(('qpush', q, self.expr(args[0]), ot[1]))
+                return None
+            if name == 'pop':
+                self.rule('std::queue pop -> ring model head+1, size-1')
+                self.pre.append(('qpop', q))
+                return None
+            if name == 'front':
+                self.rule('std::queue front -> ring model data[head] with non-empty assertion')
+                return ('qfront', q, ot[1])
+            self.err(n, 'std::queue::%s' % name)
         if ot[0] == 'optional':
             v = self.lvalue(obj)
             if name == 'has_value':
@@ -1925,6 +2005,9 @@ class FnTranslator:
             self.rule('std::to_string -> uninterpreted str_of_*')
             a = self.expr(args[0])
             return ('call', 'str_of_' + type_tag(self.T(args[0])), [a], ('string',))
+        if name == 'zero' and t[0] == 'duration':
+            self.rule('std::chrono::duration::zero() -> 0 ns')
+            return ('const', ('int', 64, True), 0)
         if name == 'quiet_NaN':
             return ('call', 'quiet_nan', [], t)
         if name in ('max', 'min', 'lowest', 'epsilon') and callee['kind'] == 'DeclRefExpr':
